@@ -11,7 +11,7 @@ Forms == {"mod", "names"}
 Spells == {"plain", "dotslash"}
 Places == {"early", "late"}
 
-VARIABLE pr      \* [n, edges : set of <<i, j>>, form, spell, place : functions on edges]
+VARIABLE pr      \* [n, edges : set of <<i, j>>, form, spell, place : functions on edges, bare : set of modules]
 Mods(n) == 1..n
 AllEdges(n) == {e \in Mods(n) \X Mods(n) : e[1] < e[2]}
 (* every module except the entry has an importer *)
@@ -19,8 +19,10 @@ Connected(n, E) == \A j \in 2..n : \E i \in 1..(j - 1) : <<i, j>> \in E
 
 Init == \E n \in 2..MaxMods : \E E \in SUBSET AllEdges(n) :
           /\ Connected(n, E)
-          /\ \E f \in [E -> Forms], sp \in [E -> Spells], pl \in [E -> Places] :
-               pr = [n |-> n, edges |-> E, form |-> f, spell |-> sp, place |-> pl]
+          /\ \E f \in [E -> Forms], sp \in [E -> Spells], pl \in [E -> Places], bare \in SUBSET (2..(n - 1)) :
+               \* a "bare" module exports nothing: it can only be imported as a whole
+               /\ \A e \in E : e[2] \in bare => f[e] = "mod"
+               /\ pr = [n |-> n, edges |-> E, form |-> f, spell |-> sp, place |-> pl, bare |-> bare]
 Next == UNCHANGED pr
 
 -----------------------------------------------------------------------------
@@ -35,12 +37,14 @@ Path(i, j) == (IF pr.spell[<<i, j>>] = "dotslash" THEN "./" ELSE "") \o MName(j)
 ImportOf(i, j) ==
     IF pr.form[<<i, j>>] = "mod" THEN [k |-> "import", form |-> "mod", path |-> Path(i, j), names |-> <<>>]
     ELSE [k |-> "import", form |-> "names", path |-> Path(i, j),
-          names |-> IF IsCounter(j) THEN <<"bump", "cur">> ELSE <<"val", "peek">>]
+          names |-> IF IsCounter(j) THEN <<"bump", "cur", "count">> ELSE <<"val", "peek">>]
 (* how module i reaches a member of module j, depending on the import form *)
 Member(i, j, name) == IF pr.form[<<i, j>>] = "mod" THEN Fld(V(MName(j)), name) ELSE V(name)
 
 UseOf(i, j) ==
-    IF IsCounter(j) THEN <<Print(Call(Member(i, j, "bump"), <<>>))>>
+    IF IsCounter(j) THEN <<Print(Call(Member(i, j, "bump"), <<>>)), Print(Member(i, j, "count")),
+                           Print(Call(Member(i, j, "cur"), <<>>))>>
+    ELSE IF j \in pr.bare THEN <<>>
     ELSE <<Print(Member(i, j, "val")), Print(Call(Member(i, j, "peek"), <<>>))>>
 
 RECURSIVE Cat(_, _)
@@ -68,10 +72,11 @@ ModBody(i) ==
              late == [k \in 1..Len(ss) |-> IF pr.place[<<i, ss[k]>>] = "late" THEN <<ImportOf(i, ss[k])>> ELSE <<>>]
              uses == [k \in 1..Len(ss) |-> UseOf(i, ss[k])] IN
          Cat(early, 1) \o <<Tag(i, "start")>> \o Cat(late, 1) \o <<Tag(i, "mid")>> \o Cat(uses, 1)
-         \o <<[k |-> "let", n |-> "val", ty |-> "int", e |-> I(100 * i), mod |-> FALSE, const |-> FALSE, export |-> TRUE],
-              [k |-> "let", n |-> "peek", ty |-> "fn() -> int", mod |-> FALSE, const |-> FALSE, export |-> TRUE,
-               e |-> Fn("peek", <<>>, "int", <<Ret(Bin("+", V("val"), I(1)))>>)],
-              Tag(i, "end")>>
+         \o (IF i \in pr.bare THEN <<>> ELSE
+             <<[k |-> "let", n |-> "val", ty |-> "int", e |-> I(100 * i), mod |-> FALSE, const |-> FALSE, export |-> TRUE],
+               [k |-> "let", n |-> "peek", ty |-> "fn() -> int", mod |-> FALSE, const |-> FALSE, export |-> TRUE,
+                e |-> Fn("peek", <<>>, "int", <<Ret(Bin("+", V("val"), I(1)))>>)]>>)
+         \o <<Tag(i, "end")>>
 
 Project == [entry |-> 1, mods |-> [i \in 1..pr.n |-> [name |-> MName(i), body |-> ModBody(i)]]]
 
@@ -82,6 +87,7 @@ EdgeList == LET RECURSIVE L(_, _)
                                    [i |-> i, j |-> j, form |-> pr.form[<<i, j>>], spell |-> pr.spell[<<i, j>>], place |-> pr.place[<<i, j>>]]])
             IN L(1, <<>>)
 
-EmitLight == ~NamesClash => PrintT("CASE " \o ToJson([n |-> pr.n, edges |-> EdgeList]))
-EmitCase == ~NamesClash => PrintT("CASE " \o ToJson([n |-> pr.n, edges |-> EdgeList, prog |-> Project]))
+BareList == [k \in 1..pr.n |-> k \in pr.bare]
+EmitLight == ~NamesClash => PrintT("CASE " \o ToJson([n |-> pr.n, edges |-> EdgeList, bare |-> BareList]))
+EmitCase == ~NamesClash => PrintT("CASE " \o ToJson([n |-> pr.n, edges |-> EdgeList, bare |-> BareList, prog |-> Project]))
 =============================================================================
